@@ -707,3 +707,11 @@ benign('C16', 'reduce_indices: divisor expanded by expand_dims', 'atomman/tools/
 
 # regressions of the fix: commit 1ff65ea (POSCAR counts for every atom type of the system)
 mutant('C07', 'regress-1ff65ea POSCAR counts stop at the largest type in use', 'atomman/dump/poscar/dump.py', "    for i in range(1, system.natypes+1):\n        count = counts[uatype==i]", "    for i in range(1, int(uatype.max()+1)):\n        count = counts[uatype==i]", 'POSCAR')
+
+# regressions of the fix: commit e9f5651 (Gaussian units of the style tables)
+STF = 'atomman/lammps/style.py'
+mutant('C07', 'regress-e9f5651 cgs charge with c0 as a number', STF, "'C*m/(10*c0*s)'\n", "'10*c0*C'\n", 'STYLE-ELECTRICAL')
+mutant('C07', 'regress-e9f5651 cgs electric field with c0 as a number', STF, "'c0*s/m*uV/cm'", "'c0*uV/cm'", 'STYLE-ELECTRICAL')
+mutant('C07', 'regress-e9f5651 Debye with c0 as a number', STF, "'1e-21*C*m*m/(c0*s)'", "'1e-21/c0*C*m'", 'STYLE-ELECTRICAL')
+mutant('C07', 'micro charge in coulomb', STF, "'1e-12*C'\n", "'C'\n", 'STYLE-ELECTRICAL')
+benign('C07', 'statcoulomb written with the factor first', STF, "'C*m/(10*c0*s)'\n", "'0.1*C*m/(c0*s)'\n")
